@@ -306,9 +306,11 @@ def shards(tier, seed):
                              ["0 <= k1 < 4 and 0 <= k2 < 4", "0 <= i <= 2"], family="pool/list",
                              budget=900, kind="S",
                              desc="pooled real objects in a list (equal leaves share one object), set l[i]; dump + reload"))
-    out.append(shard(PID, "pool/two_lists", "harness.c03", "set_two_lists(k)", [("k", "int")], ["0 <= k < %d" % (81 * 6)],
-                     family="pool/two_lists", budget=1200, kind="S",
-                     desc="two lists and a list of rows over pooled objects (equal lists included); set one element"))
+    for lo in range(0, 81 * 6, 81):
+        out.append(shard(PID, "pool/two_lists/k%03d" % lo, "harness.c03", "set_two_lists(k)", [("k", "int")],
+                         ["%d <= k < %d" % (lo, lo + 81)], family="pool/two_lists", budget=1200, kind="S",
+                         desc="two lists and a list of rows over pooled objects (equal lists included); set one element "
+                              "(combined selector slice)"))
     out.append(shard(PID, "pool/key", "harness.c03", "set_key_pool(k, vk)", [("k", "int"), ("vk", "int")],
                      ["0 <= k < 4", "0 <= vk < 4"], family="pool/key", budget=600, kind="S",
                      desc="value spelled like a key elsewhere; set changes only the value"))
